@@ -11,7 +11,7 @@ COQ_RUN = "run16"
 COQ_CASE_TYPE = "case16"
 SHARD = 60
 RULE = ("the client runs against an interactive fake board (python) whose every reply is re-derived from Spec/Board.v inside Coq; "
-        "int32 values {0, +-1, +-2^31 edge, byte boundaries, random} x slots 0..28 written then read back; nicknames with surrounding blanks and with leading Q / T / comma characters (systematic list + random); "
+        "int32 values {0, +-1, +-2^31 edge, byte boundaries, random} x slots 0..28 written then read back; renaming a board whose name the object already knows (other letter case, padded, prefix, extension); nicknames with surrounding blanks and with leading Q / T / comma characters (systematic list + random); "
         "all 36 clamped (r1, r2) requests (and out-of-range arguments) from all 20 prior board motor states, systematically, runs of 3..5 motor requests on one object (every ordered pair of different scales as: scale a, then motor 2 only at b, then motor 2 only at a), and random sequences of 3..12 such operations; "
         "non-trivial = a motors_enable request from an enabled prior state, or an int32 with a non-zero high byte")
 TRUSTED = ["the EBB board model Spec/Board.v (SL/QL/ST/QT/EM/QE/CU as documented in the repository's docstrings): assumed, no firmware source offline",
@@ -108,6 +108,12 @@ def generate(rng, tier):
         cases.append({"board": _board(rng), "calls": calls, "family": "motors/runs-of-requests"})
     for nk in NICKS:
         cases.append({"board": _board(rng), "calls": [("write_nick", nk), ("query_nick",), ("query", "QT"), ("query_nick",)], "family": "nickname/systematic"})
+    # renaming a board the object already knows: to another spelling of the same letters, to a padded copy, to a prefix / extension, and back
+    for nk in ["NextDraw A3", "Bot", "axi", "East  Lab", "Q", "tOm"] + ([_nick(rng) for _ in range(6)] if tier != "quick" else []):
+        alt = [nk.swapcase(), " " + nk.upper() + " ", nk.lower(), nk + "x", nk[:-1], nk, "\t" + nk.title()]
+        calls = [("write_nick", nk), ("query_nick",)]
+        for a2 in alt: calls += [("write_nick", a2), ("query_nick",), ("query", "QT")]
+        cases.append({"board": _board(rng), "calls": calls, "family": "nickname/rename-known-board"})
     n = 150 if tier == "quick" else 9000
     for _ in range(n):
         calls = []
